@@ -84,6 +84,10 @@ def case_strategy(draw, tier):
     if not any(t[2] in ("in_service", "opened") for t in targets) and draw(st.integers(0, 2)) == 0:
         # the usual speed-up for time series whose structure does not change: only the loads differ between steps
         opts.update(only_update_hydraulic_matrix=True, reuse_internal_data=True)
+    if walk_k is not None:
+        # the turbulent-only friction models (Colebrook-White, Swamee-Jain) fail erratically on weakly loaded nets, so an
+        # intermediate control iteration could fail where the final values converge (see gen.hyd_case)
+        opts["friction_model"] = "nikuradse"
     return {"recipe": rec, "options": opts, "targets": [list(t[:3]) for t in targets], "profile": prof, "steps": steps,
             "continue_on_divergence": draw(st.booleans()), "controller_loop": loop if walk_k is not None else 0,
             "walk_target": walk_k}
